@@ -313,6 +313,18 @@ func (c07) Run(c *Ctx, i int) CaseResult {
 		res.Skipped = "plan-error"
 		return res
 	}
+	// L2: the executor's data path against the sequential executor model, on this very input
+	if xf, note := ExecCorr(c, in); len(xf) > 0 {
+		for _, f := range xf {
+			f.Classifier = class
+			res.Fails = append(res.Fails, f)
+		}
+	} else if note != "" {
+		if res.Counters == nil {
+			res.Counters = map[string]int{}
+		}
+		res.Counters["exec_model_"+note]++
+	}
 	// L1: whatever the services answered, the observed execution is a run of the executor machine
 	for _, tf := range TraceFails(c, rec, o, in) {
 		tf.Classifier = class
